@@ -115,6 +115,34 @@ def run_property(prop, tier, seed, jobs, replay=None):
         for e in d['harness_errors']:
             inconclusive.append('shard %d harness error: %s' % (i, e))
 
+    # thorough tier: the repository's own tests with this property's contracts attached
+    suite_wanted = getattr(mod, 'SUITE_UNDER_CONTRACTS', False) and (
+        (tier == 'thorough' and not replay) or (replay and json.load(open(replay)).get('check') == 'suite'))
+    if suite_wanted:
+        sfile = os.path.join(rundir, 'suite.json')
+        try:
+            with open(sfile + '.log', 'w') as fid:
+                subprocess.run([sys.executable, '-m', 'pvmon.suite', prop, sfile], cwd=HERE, stdout=fid,
+                               stderr=subprocess.STDOUT, timeout=1800)
+            sres = json.load(open(sfile))
+        except Exception as exc:
+            sres = None
+            inconclusive.append('suite under contracts did not complete: %r' % (exc,))
+        if sres is not None:
+            info['suite_under_contracts'] = {'tests_passed': sres['passed'], 'tests_failed': len(sres['failed']),
+                                             'monitor_counters_during_suite': sres['counters']}
+            counters['evaluations'] += sum(v for k, v in sres['counters'].items() if k.startswith('contract.'))
+            if replay:
+                counters['evaluations'] += sres['passed']
+            for f in sres['failed']:
+                v = {'property': prop, 'check': 'suite', 'case': {'nodeid': f['nodeid']}, 'key': None,
+                     'msg': 'repository test fails with the contracts of %s attached: %s' % (prop, f['text'][-600:]),
+                     'detail': {'when': f['when']}, 'seed': seed, 'tier': tier}
+                viols.append(v)
+                bykey['None'] += 1
+            if sres['passed'] == 0:
+                inconclusive.append('suite under contracts ran no test')
+
     if not replay:
         for name, (minimum, why) in sorted(reqs.items()):
             if counters.get(name, 0) < minimum:
